@@ -149,6 +149,15 @@ public:
         }
     }
 
+    void Reset() {
+        interrupt_pending[0] = false;
+        interrupt_pending[1] = false;
+        interrupt_pending[2] = false;
+        vinterrupt_pending = false;
+        vinterrupt_context_switch = false;
+        vinterrupt_address = 0;
+    }
+
     void SignalInterrupt(u32 i) {
         interrupt_pending[i] = true;
     }
